@@ -31,7 +31,11 @@ type Opts struct {
 	Special bool // allow the special 2D profile leaves (cams, flange, rack, spiral, threads, text)
 	NoPoly  bool // no polygon leaves
 	NoBlend bool // no PolyMin/PolyMax blends
-	NoText  bool // no text leaves (their internals use the pruned 2D union)
+	NoText  bool // no text leaves
+	// SolidUnion2: operands of a 2D union are drawn without difference / intersection / cut, so that no
+	// operand can be empty (excludes the known finding Union2D:pruned-value-overestimates by construction)
+	SolidUnion2 bool
+	solid       bool
 }
 
 type gen struct {
@@ -435,6 +439,7 @@ func (x *gen) profile(depth int) *Node {
 }
 
 var ops2Lip = []string{"leaf", "leaf", "union2", "union2", "diff2", "isect2", "cut2", "xform2", "xform2", "scale2", "offset2", "elong2", "array2", "rotcopy2", "rotunion2"}
+var ops2Solid = []string{"leaf", "leaf", "union2", "xform2", "xform2", "scale2", "offset2", "elong2", "array2", "rotcopy2", "rotunion2"}
 var ops2Full = append(append([]string{}, ops2Lip...), "nuscale2", "slice2", "cache2", "center2", "centerscale2")
 
 func (x *gen) node2(depth int) *Node {
@@ -445,6 +450,9 @@ func (x *gen) node2(depth int) *Node {
 	if x.o.Grammar == Full {
 		ops = ops2Full
 	}
+	if x.o.solid {
+		ops = ops2Solid
+	}
 	op := x.pick("op2", ops)
 	S := x.o.S
 	switch op {
@@ -453,9 +461,14 @@ func (x *gen) node2(depth int) *Node {
 	case "union2":
 		n := x.intr("n", 2, 4)
 		ks := make([]*Node, n)
+		was := x.o.solid
+		if x.o.SolidUnion2 {
+			x.o.solid = true
+		}
 		for i := range ks {
 			ks[i] = x.node2(depth - 1)
 		}
+		x.o.solid = was
 		s, p := x.blendMin()
 		return &Node{Op: "union2", K: ks, S: s, P: p}
 	case "diff2", "isect2":
